@@ -9,6 +9,10 @@
      binders added, `leave` = popFrame, `declare` = frames.top().add_symbol, `use` = frames.top().resolve (the very
      `resolveIn` of Model/Scope.lean that M-BUILD uses), i.e. the name->LAST-index mapping per frame and the walk
      along raw parent pointers.
+   A symbol can also be taken out of a frame again (`frame_t::remove`, reached through `Document::remove_process`): event
+   `remove x`.  Declaratively the latest declaration of x in the innermost open scope is withdrawn -- every other
+   declaration stays where it was, and an earlier declaration of x that it was hiding is visible again; operationally
+   the frame is rebuilt from all its symbols but that one.
    Declarations are identified by their ordinal (0,1,2,… in script order; binders of an `enter` in list order).
    Core Lean only. -/
 import UtapModel.Model.Scope
@@ -20,6 +24,7 @@ inductive Ev where
   | leave
   | declare (x : String)
   | use (x : String)
+  | remove (x : String)             -- frames.top().remove(s), s = the top frame's own symbol of that name (Document::remove_process on the globals)
   deriving Repr, DecidableEq, Inhabited
 
 /-! ### declarative semantics -/
@@ -41,9 +46,16 @@ def binderScope (next : Nat) : List String → Scope → Scope
   | [], acc => acc
   | b :: bs, acc => binderScope (next + 1) bs ((b, next) :: acc)
 
+/-- the scope without its latest declaration of `x` (nothing else moves; "" names no declaration) -/
+def withdraw (x : String) (sc : Scope) : Scope := if x = "" then sc else sc.eraseP (fun d => d.1 = x)
+
 def specRun (scopes : List Scope) (next : Nat) : List Ev → List (Option Nat)
   | [] => []
   | .use x :: r => lookupScopes x scopes :: specRun scopes next r
+  | .remove x :: r =>
+    (match scopes with
+     | sc :: rest => specRun (withdraw x sc :: rest) next r
+     | [] => specRun [] next r)
   | .declare x :: r =>
     (match scopes with
      | sc :: rest => specRun (((x, next) :: sc) :: rest) (next + 1) r
@@ -85,6 +97,13 @@ def SState.declare (s : SState) (x : String) : SState :=
   { s with syms := s.syms ++ [⟨x, .var ⟨false⟩, none⟩],
            store := s.store.modify s.top (fun f => { f with syms := f.syms ++ [s.syms.length] }) }
 
+/-- `frames.top().remove(s)` for the symbol s that the top frame itself holds under the name x: symbols and mapping are
+    cleared and every symbol but s is added again, in order (symbols.cpp, frame_t::remove) -/
+def SState.remove (s : SState) (x : String) : SState :=
+  match (s.store[s.top]?).bind (fun f => f.lookup s.syms x) with
+  | some sid => { s with store := s.store.modify s.top (fun f => { f with syms := f.syms.filter (· ≠ sid) }) }
+  | none => s
+
 /-- `frames.top().resolve(x, uid)` -/
 def SState.use (s : SState) (x : String) : Option SymId :=
   resolveIn s.syms s.store (s.store.length + 1) s.top x
@@ -92,6 +111,7 @@ def SState.use (s : SState) (x : String) : Option SymId :=
 def implRun (s : SState) : List Ev → List (Option Nat)
   | [] => []
   | .use x :: r => s.use x :: implRun s r
+  | .remove x :: r => implRun (s.remove x) r
   | .declare x :: r => implRun (s.declare x) r
   | .enter bs :: r => implRun (s.enter bs) r
   | .leave :: r => implRun s.leave r
